@@ -33,7 +33,8 @@ LEVEL_TEXT = ("Placements of cancel / matching response / deadline on a virtual 
               ' Also a writer stalled past the deadline at cancellation time and several concurrent requests given one params dict. Every case also runs under the dependency-free validation backend.'
               ' Also a token triggered before the call with a stalled writer.'
               ' Also deadlines of 9, 11, 30, 60 and 300 s with a cancellation in a quiet spell.'
-              ' Also responses, progress notifications and the cancellation delivered from timer callbacks exactly on poll boundaries, with both orders of the tied timers.')
+              ' Also responses, progress notifications and the cancellation delivered from timer callbacks exactly on poll boundaries, with both orders of the tied timers.'
+              ' Also callbacks failing with each common exception class (TypeError - also a genuine one -, ValueError, KeyError, AttributeError, TimeoutError, OSError, RecursionError ...).')
 LEVEL_NOTE = ("Trusted: virtual-time loop; the oracle accepts either neighbour inside ambiguous windows "
               "(simultaneous events, response within one poll interval after cancel).")
 RULE = ("schedule = (timeout, cancel time|none|pre, response time|none, traffic pattern, progress stream, "
